@@ -1,7 +1,7 @@
 PROP = dict(
     ready=True,
     coq=["theories/Properties/C09.v"],
-    suites=[dict(bin="obs-posting")],
+    suites=[{'bin': 'obs-httpwrite', 'corpus': 'httpwrite'}, dict(bin="obs-posting")],
     trusted=[
         "hand-written model Posting/Model.v of internal/numscript.go (TxToScriptData), internal/posting.go (Postings.Validate, "
         "Postings.Reverse), internal/account.go + asset.go (the two patterns as character-class recursions), transaction.go "
